@@ -31,6 +31,7 @@ type Obligation struct {
 	Expect string // "unsat" normally; "notunsat" for canaries
 	Outputs map[string]string
 	Replay  *ReplayHint
+	Text    string // the clause conjunct being checked
 }
 
 // ReplayHint carries the terms whose model values are needed to rebuild the failing entry state.
@@ -76,6 +77,7 @@ type VC struct {
 	specErrors []string
 	loopHeads  map[*ssa.Function]map[*ssa.BasicBlock]*loopInfo
 	missingFuncs []string
+	curText string
 	eventFired map[*Event]int
 	canaries   map[string][]*Obligation
 	canaryOrder []string
@@ -203,6 +205,9 @@ func (vc *VC) addSpec(sf *SpecFile, pkg *packages.Package) error {
 // qualify turns  [pkg.]Type.member  into  pkgpath.Type.member  (tail = number of trailing components that are not package)
 func (vc *VC) qualify(name string, pkg *packages.Package, tail int) (string, error) {
 	parts := strings.Split(name, ".")
+	if len(parts) < tail {
+		return "", fmt.Errorf("%s: not a qualified member name", name)
+	}
 	if len(parts) == tail {
 		if pkg == nil {
 			return "", fmt.Errorf("%s: package-qualified name required in trusted spec", name)
